@@ -281,6 +281,17 @@ pub struct HtlcSpec {
     /// raw override of the hex payload (hostile bytes); label must then be Undecodable/Continue
     pub raw_payload_hex: Option<String>,
     pub label: RefLabel,
+    /// delivery gate (retry sets)
+    pub gate: Gate,
+}
+
+#[derive(Clone, Copy, Debug, PartialEq)]
+pub enum Gate {
+    None,
+    /// deliver only when no HTLC of this hash is held and the original set has been offered
+    HashIdle,
+    /// deliver only after the HTLC with this uid has been delivered
+    After(usize),
 }
 
 pub fn metadata_bytes(m: &Metadata) -> Option<Vec<u8>> {
